@@ -20,7 +20,7 @@ func init() {
 			"(5) the wide forms give each shard capacity/numbs+1 (routing/delegation: C17). " +
 			"NOT decided: equality with an ideal LRU over whole histories (follows informally from these per-operation facts and container/list), interleavings beyond lock coverage.",
 		Assumptions: []string{"container/list contract", "Init runs before the cache is shared (declared exemption)"},
-		Floors:      map[string]int{"C04.guarded-by": 40, "C04.coupled": 14, "C04.capacity-restored": 8, "C04.eviction": 4, "C04.recency": 20, "C04.shard-capacity": 2},
+		Floors:      map[string]int{"C04.guarded-by": 40, "C04.coupled": 14, "C04.capacity-restored": 8, "C04.eviction": 4, "C04.recency": 20, "C04.shard-capacity": 2, "C04.delegation": 10, "C04.index-provenance": 10, "C04.construction": 2},
 		Run:         runC04,
 	})
 }
@@ -61,6 +61,15 @@ func runC04(c *Ctx) {
 		x.run()
 	}
 	c.checkShardCapacity()
+	// the wide variants: "per shard" holds only if every keyed operation is the shard's same-named operation
+	// on shards[calKeyFn(key)] (Peek delegating to Get would refresh recency, Get to Peek would not)
+	if numbs := c.mustField("remap", "ReMap", "numbs"); numbs != nil {
+		for _, w := range wideContainers {
+			if w.typ == "WideLRUCache" {
+				c.checkWideContainer("C04", w, numbs)
+			}
+		}
+	}
 }
 
 func (x *lruCtx) listCall(e *Event, m string) bool {
